@@ -7,6 +7,9 @@
      VIEWS site N d skip                                -> "V co cc vo vc" (-1 -1 = out of range) | "NONE"
      FACTOR n d tol <n*n B> <n*d Y> <d lam>             -> "B 1" | "B 0" | "ILL"
      DIST   n d tol <n*d Y> <n*n D2>                    -> "B 1" | "B 0" | "ILL"
+     FACTORW n d <n*n B> <n*d Y> <d lam> <d*d T1> <d T2> -> "B 1" | "B 0" | "ILL"   (tolerance per entry)
+     RGS    n k thr <n*n A> <n*k O> <k norms>           -> "M n k <n*k>"  basis of the randomized front-end
+     RSMALL n k <n*n A> <n*k Y>                         -> "M k k <k*k>"  Y^T (A Y), A read through its upper triangle
      CONTRACT n tol <n*n B> <n*n V> <n lam>             -> "B 1" | "B 0" | "ILL"
    Anything unparsable -> "ERR <why>" (the Python side treats it as a build error). *)
 open C05_model
@@ -136,6 +139,19 @@ let () =
              let n = int () in let d = int () in let tol = rat () in
              let b = matr n n in let y = matr n d in let lam = vecr d in
              outb (c05_factor (nat_of_int n) (nat_of_int d) tol b y lam)
+           | "FACTORW" ->
+             let n = int () in let d = int () in
+             let b = matr n n in let y = matr n d in let lam = vecr d in
+             let t1 = matr d d in let t2 = vecr d in
+             outb (c05_factor_w (nat_of_int n) (nat_of_int d) t1 t2 b y lam)
+           | "RGS" ->
+             let n = int () in let k = int () in let thr = rat () in
+             let a = matr n n in let o = matr n k in let s = vecr k in
+             out_matrix n k (c05_rgs (nat_of_int n) (nat_of_int k) thr a o s)
+           | "RSMALL" ->
+             let n = int () in let k = int () in
+             let a = matr n n in let y = matr n k in
+             out_matrix k k (c05_rsmall (nat_of_int n) (nat_of_int k) a y)
            | "DIST" ->
              let n = int () in let d = int () in let tol = rat () in
              let y = matr n d in let d2 = matr n n in
